@@ -253,7 +253,9 @@ static const char *opname[] = { "put(a)", "put(b)", "get", "clear", "override(on
                 if (hl < 150) hl += (size_t)snprintf(hist + hl, sizeof hist - hl, "c");                             \
             } else {                                                                                                \
                 bool on = vh_chance(r, 1, 2);                                                                       \
-                NAME##_override_if_full(&rb, on);                                                                   \
+                /* "on" is any non-zero value: a flag tested with cfg & MASK has bit 0 clear as often as not */     \
+                static const unsigned truthy[] = { 1u, 2u, 0x80u, 0x100u, 0x10000u, 0x80000000u, 3u };               \
+                NAME##_override_if_full(&rb, on ? truthy[i % 7u] : 0u);                                             \
                 m.override = on;                                                                                    \
                 snprintf(ctx, sizeof ctx, "cap=%zu step %zu override(%d)", cap, i, on);                             \
                 VH_COUNT("history: override change");                                                               \
